@@ -152,6 +152,50 @@ ARITH = ["Variable", "Sum", "Product", "Quotient", "Power", "FloorDiv", "Remaind
          "Comparison", "Min", "Max"]
 
 
+def _np_twin(t):
+    """the same term with every Python int / float / bool constant as a numpy scalar of the
+    same kind (such twins are equal expressions and have one walk-mapper key)"""
+    k = t[0]
+    if k == "i":
+        return ["np", "int64", repr(int(t[1]))]
+    if k == "f":
+        return ["np", "float64", t[1]]
+    if k == "b":
+        return ["np", "bool_", repr(bool(t[1]))]
+    if k == "n":
+        return ["n", t[1], [_np_twin(x) for x in t[2]]]
+    if k == "t":
+        return ["t", [_np_twin(x) for x in t[1]]]
+    if k in ("im", "d", "mp"):
+        return [k, [[kk, _np_twin(v)] for kk, v in t[1]]]
+    if k == "let":
+        return ["let", [[nm, _np_twin(v)] for nm, v in t[1]], _np_twin(t[2])]
+    return t
+
+
+def _np_norm(t):
+    """inverse direction, for keying walk-mapper digests: numpy int / float / bool scalars as
+    the Python constants they convert to"""
+    k = t[0]
+    if k == "np":
+        if t[1].startswith(("int", "uint")):
+            return ["i", int(float(t[2]))]
+        if t[1] in ("float64",):
+            return ["f", repr(float(t[2]))]
+        if t[1] == "bool_":
+            return ["b", t[2] == "True"]
+        return t
+    if k == "f":
+        return ["f", repr(float(t[1]))]
+    if k == "n":
+        return ["n", t[1], [_np_norm(x) for x in t[2]]]
+    if k == "t":
+        return ["t", [_np_norm(x) for x in t[1]]]
+    if k in ("im", "d", "mp"):
+        return [k, [[kk, _np_norm(v)] for kk, v in t[1]]]
+    return t
+
+
 def generate(seed, tier):
     from .c01 import GA_FIELDS, _Gen
     from .usertypes import USER_FIELDS
@@ -166,10 +210,17 @@ def generate(seed, tier):
                       "fresh": fresh_run and r.random() < 0.5,
                       "hs": r.randrange(2**32)})
     classes = list(spec.ALL_BUILTIN) + list(GA_FIELDS) + list(USER_FIELDS) * 2
-    g = _Gen(r, classes=classes, max_depth=r.choice([1, 2, 3, 3, 4]), pool=[],
+    class _Gen17(_Gen):
+        def field(self, kind, depth):
+            if kind == "s" and self.rng.random() < 0.05:
+                # a name that is an instance of a str subclass
+                return ["nstr", self.rng.choice(self.idents)]
+            return super().field(kind, depth)
+
+    g = _Gen17(r, classes=classes, max_depth=r.choice([1, 2, 3, 3, 4]), pool=[],
              idents=["x", "y", "z"], p_leaf=0.3,
              leaf_classes=("Variable", "Variable", "SubVariable", "LegacyVar"),
-             const_kinds=("i", "i", "f", "b", "npi", "npf", "c", "uc"),
+             const_kinds=("i", "i", "f", "b", "npi", "npf", "npb", "c", "uc"),
              const_values=(0, 1, 2, -1, 3, 7))
     g.extra_fields = dict(GA_FIELDS)
     g.extra_fields.update(USER_FIELDS)
@@ -274,6 +325,15 @@ def generate(seed, tier):
             ops.append(["lookup", n, r.choice(have[n])])
         elif x < 0.84 and have[n]:
             ops.append(["digest", n, r.choice(have[n])])
+            if r.random() < 0.3:
+                # an equal expression whose constants are numpy scalars, digested elsewhere
+                t = r.choice(terms)
+                n3, n4 = r.randrange(nn), r.randrange(nn)
+                for nx, tx in ((n3, t), (n4, _np_twin(t))):
+                    h = newh()
+                    ops.append(["build", nx, h, tx])
+                    ops.append(["digest", nx, h])
+                    have[nx].append(h)
             if r.random() < 0.6:
                 # the same expression digested by another node, whose history differs
                 t = r.choice(terms)
@@ -410,6 +470,7 @@ def execute(scenario, open_sigs):
     store = {}             # msg -> dict(bytes, term, producer_seed, producer_opt, hashed_before, nloads)
     cstore = {}
     digests = {}           # jkey(term) -> {kind: value}
+    walk_digests = {}      # jkey(numpy-normalised term) -> first walk digest
     compiled = {}          # (node, c) -> (term, listed)
     compile_outcome = {}   # (jkey(term), tuple(listed)) -> compiled bool
     values = {}            # (jkey(term), tuple(listed), jkey(args)) -> value canon
@@ -569,6 +630,18 @@ def execute(scenario, open_sigs):
                     first = digests.setdefault(tk, {"walk": r["walk"], "keybuilder": r["keybuilder"],
                                                     "node": n, "seed": node(n).hash_seed})
                     probe("digests_compared")
+                    # the walk mapper's key is the same for a numpy scalar and the Python
+                    # constant it converts to (such expressions are equal)
+                    wk = jkey(_np_norm(spec.expand(handle_term[(n, h)])))
+                    wfirst = walk_digests.setdefault(wk, {"walk": r["walk"], "term": tk,
+                                                          "seed": node(n).hash_seed})
+                    if wfirst["walk"] != r["walk"] and wfirst["term"] != tk:
+                        probe("numpy_twin_digests_compared")
+                        viol("C17/digest-differs", {
+                            "op": opi, "kind": "walk (numpy twin)", "term": handle_term[(n, h)],
+                            "first": wfirst["walk"], "now": r["walk"]})
+                    elif wfirst["term"] != tk:
+                        probe("numpy_twin_digests_compared")
                     for kind in ("walk", "keybuilder"):
                         if first[kind] != r[kind]:
                             viol("C17/digest-differs", {
